@@ -503,6 +503,37 @@ func (r *Run) runLocal(engine string, n, w, W int, opt Opt, fn func(*Case)) {
 	if r.child != nil && r.child.prog != "" {
 		progF, _ = os.OpenFile(r.child.prog, os.O_CREATE|os.O_WRONLY|os.O_TRUNC, 0o644)
 	}
+	go func() {
+		t := time.NewTicker(2 * time.Second)
+		defer t.Stop()
+		for {
+			select {
+			case <-done:
+				return
+			case <-t.C:
+				now := time.Now().UnixNano()
+				for k := range slots {
+					idx := slots[k].idx.Load()
+					if idx >= 0 && now-slots[k].since.Load() > int64(maxSec)*1e9 {
+						// watchdog: the case does not return
+						if opt.HangViolation {
+							r.mu.Lock()
+							r.nviol++
+							r.violations = append(r.violations, Violation{Engine: engine, Index: int(idx), Sig: "hang",
+								Msg: fmt.Sprintf("case did not return within %d s (expected milliseconds)", maxSec)})
+							r.mu.Unlock()
+						} else {
+							r.Inconclusive(fmt.Sprintf("watchdog: %s[%d] did not return within %d s", engine, idx, maxSec))
+						}
+						buf := make([]byte, 1<<20)
+						buf = buf[:runtime.Stack(buf, true)]
+						os.Stderr.Write(buf)
+						r.Finish()
+					}
+				}
+			}
+		}
+	}()
 	for k := 0; k < workers; k++ {
 		wg.Add(1)
 		go func(k int) {
@@ -539,37 +570,6 @@ func (r *Run) runLocal(engine string, n, w, W int, opt Opt, fn func(*Case)) {
 			}
 		}(k)
 	}
-	go func() {
-		t := time.NewTicker(2 * time.Second)
-		defer t.Stop()
-		for {
-			select {
-			case <-done:
-				return
-			case <-t.C:
-				now := time.Now().UnixNano()
-				for k := range slots {
-					idx := slots[k].idx.Load()
-					if idx >= 0 && now-slots[k].since.Load() > int64(maxSec)*1e9 {
-						// watchdog: the case does not return
-						if opt.HangViolation {
-							r.mu.Lock()
-							r.nviol++
-							r.violations = append(r.violations, Violation{Engine: engine, Index: int(idx), Sig: "hang",
-								Msg: fmt.Sprintf("case did not return within %d s (expected milliseconds)", maxSec)})
-							r.mu.Unlock()
-						} else {
-							r.Inconclusive(fmt.Sprintf("watchdog: %s[%d] did not return within %d s", engine, idx, maxSec))
-						}
-						buf := make([]byte, 1<<20)
-						buf = buf[:runtime.Stack(buf, true)]
-						os.Stderr.Write(buf)
-						r.Finish()
-					}
-				}
-			}
-		}
-	}()
 	wg.Wait()
 	close(done)
 	if progF != nil {
